@@ -430,16 +430,15 @@ Proof.
   destruct (l_ext a); apply ok_inj in H; rewrite <- H; [apply (EXT v6 [] P6)|exact P6].
 Qed.
 
-(* ---- the Content-Disposition oracle accepts the model (ASCII branch; the tokenizer of the
-   non-ASCII branch of [cd_out_ok] is not proved, its ingredients are
-   [content_disposition_ext_value]) *)
+(* ---- the Content-Disposition oracle accepts the model: ASCII branch here, the non-ASCII branch
+   (tokenizer + ext-value) and the full statement are in ProofsBridge.v *)
 Lemma startswith_self_app p r : startswith (p ++ r) p = true.
 Proof. apply startswith_app. exists r. reflexivity. Qed.
 
 Lemma skipn_app_len {A} (p r : list A) : skipn (List.length p) (p ++ r) = r.
 Proof. induction p as [|x tl IH]; [reflexivity | exact IH]. Qed.
 
-Theorem cd_oracle_sound_ascii_partial nfkd dt v out :
+Theorem cd_oracle_sound_ascii nfkd dt v out :
   is_ascii dt = true -> is_ascii v = true ->
   format_content_disposition true nfkd dt v = Ok out -> cd_out_ok dt v out = true.
 Proof.
